@@ -12,7 +12,8 @@ RULE = ("every way of passing a file (str path, bytes path, os.PathLike, open 'r
         "compared with the Lean model over all argument combinations (which object is used, which path is opened in which mode, which error). "
         "Non-trivial: an operation that reads or writes the file; distinct by (format, sample, operation, way)")
 
-WAYS = ["str", "bytes", "pathlike", "openfile", "rawfile", "bytesio", "minimal", "kw-filename", "kw-fileobj", "kw-both"]
+WAYS = ["str", "bytes", "pathlike", "openfile", "rawfile", "bytesio", "minimal", "kw-filename", "kw-filename-bytes", "kw-filename-pathlike",
+        "kw-filename-pathlib", "kw-fileobj", "kw-both"]
 
 
 class PL(object):
@@ -38,6 +39,13 @@ def perform(fmt, data, op, way, tmpdir, name):
         pos, kw = (PL(path),), {}
     elif way == "kw-filename":
         pos, kw = (), {"filename": path}
+    elif way == "kw-filename-bytes":
+        pos, kw = (), {"filename": os.fsencode(path)}
+    elif way == "kw-filename-pathlike":
+        pos, kw = (), {"filename": PL(path)}
+    elif way == "kw-filename-pathlib":
+        import pathlib
+        pos, kw = (), {"filename": pathlib.Path(path)}
     elif way == "openfile":
         handle = open(path, "rb+"); fobj = handle
         pos, kw = (fobj,), {}
@@ -73,6 +81,9 @@ def perform(fmt, data, op, way, tmpdir, name):
             return h.read()
     try:
         obj = fmt.cls(*pos, **kw)
+        stored = getattr(obj, "filename", None) if not isinstance(obj, _TagFile) else getattr(obj.tags, "filename", None)
+        if fobj is None and stored not in (path, os.fsencode(path)):
+            notes.append("filename:%s" % type(stored).__name__)
         if op == "load":
             out = ("ok", F.snapshot(fmt, obj), result_bytes())
         elif op == "save":
@@ -135,6 +146,10 @@ def check_formats(ctx, tmpdir):
                     if "closed" in notes:
                         ctx.violation("closes-caller-object:%s:%s" % (fmt.kind, op), "the caller's file object was closed (%s)" % way, case)
                     for n in notes:
+                        if n.startswith("filename:"):
+                            ctx.violation("stored-filename:%s:%s" % (fmt.kind, way), "the object's .filename is a %s, not the path "
+                                          "(str or bytes) that every other way of passing the same file stores" % n[9:], case)
+                    for n in notes:
                         if n.startswith("asked:"):
                             # probing with hasattr() is fine; needing the attribute shows up as a different outcome below
                             for a in n[6:].split(","):
@@ -169,7 +184,8 @@ def check_file_detection(ctx, tmpdir):
                     h.write(data)
                 base = None
                 for way in ("str", "bytes", "pathlike", "openfile", "openfile-bytesname", "bytesio", "bytesio-bytesname", "minimal",
-                            "kw-filename", "kw-fileobj", "kw-both", "pos-fileobj-kw-filename"):
+                            "kw-filename", "kw-filename-bytes", "kw-filename-pathlike", "kw-filename-pathlib", "kw-fileobj", "kw-both",
+                            "kw-both-pathlike", "pos-fileobj-kw-filename"):
                     handle = None
                     try:
                         if way == "str":
@@ -180,6 +196,15 @@ def check_file_detection(ctx, tmpdir):
                             r = mutagen.File(PL(path))
                         elif way == "kw-filename":
                             r = mutagen.File(filename=path)
+                        elif way == "kw-filename-bytes":
+                            r = mutagen.File(filename=os.fsencode(path))
+                        elif way == "kw-filename-pathlike":
+                            r = mutagen.File(filename=PL(path))
+                        elif way == "kw-filename-pathlib":
+                            import pathlib
+                            r = mutagen.File(filename=pathlib.Path(path))
+                        elif way == "kw-both-pathlike":
+                            r = mutagen.File(fileobj=io.BytesIO(data), filename=PL(os.path.join(tmpdir, "no-such-dir", name)))
                         elif way == "openfile":
                             handle = open(path, "rb"); r = mutagen.File(handle)
                         elif way == "openfile-bytesname":
@@ -348,7 +373,7 @@ def check_openfile_logic(ctx):
     _util.open = fake_open
     try:
         for (tdesc, thing), kwfn, kwobj, inst, method, writable, create in itertools.product(
-                things, (None, "k.flac"), (None, (9, True, True), (9, True, False)), (None, "i.flac"), (True, False),
+                things, (None, "k.flac", PL("k.flac"), PL(17)), (None, (9, True, True), (9, True, False)), (None, "i.flac"), (True, False),
                 (False, True), (False, True)):
             if create and not writable:
                 continue
@@ -378,7 +403,7 @@ def check_openfile_logic(ctx):
                 real = "err " + type(e).__name__
             line = "open thing=%s method=%d writable=%d create=%d" % (tdesc, method, writable, create)
             if kwfn:
-                line += " kwfn=" + kwfn
+                line += " kwfn=" + ("path:" + kwfn if isinstance(kwfn, str) else "pathlike:" + kwfn.p if isinstance(kwfn.p, str) else "pathlikebad")
             if kwobj:
                 line += " kwobj=%d:%d:%d" % (kwobj[0], kwobj[1], kwobj[2])
             if inst:
